@@ -187,7 +187,9 @@ func nodeWithCaseConversion(n *RegexNode) *RegexNode {
 
 	if n.Ch > 0 {
 		ch := n.Ch
-		if isLow, isUp := unicode.IsLower(ch), unicode.IsUpper(ch); isLow || isUp {
+		// any character with a case-fold partner needs the set: besides Lu/Ll letters
+		// that covers title-case letters, enclosed letters, Roman numerals, U+0345 ...
+		if unicode.SimpleFold(ch) != ch {
 			/*var upper, lower rune
 			// it's a capitalizable char
 			if isUp {
